@@ -145,16 +145,16 @@ Example C12_example_correct_conversation :
             cl_dead c = Some eTerminated /\ ledger (wst (cl_w c)) = 0 /\ wsent (cl_w c) = 6.
 Proof. eexists. vm_compute. repeat split; reflexivity. Qed.
 
-(* the side conditions of the partial theorem hold on it *)
-Example C12_example_run_ok :
-  run_ok (cfg_asis (Some PTCP) false) 2 false [ADescribe; ASetup 0; APlay]
-    (cl_init [(mOptions, [EvResp (rsimple 200)]); (mDescribe, [EvResp (rdescribe [mOK; mOK])]);
-              (mSetup, [EvResp (rsetup_tcp 0 1)]); (mPlay, [EvResp (rsimple 200)])] None).
+(* the side conditions of the partial theorem are satisfiable: locally built medias, forced TCP *)
+Example C12_example_run_ok : forall sc,
+  run_ok (cfg_asis (Some PTCP) false) 1 false [ASetup 0; APlay; APause] (cl_init sc (Some [mOK])).
 Proof.
-  cbn [run_ok]. split; [exact I|]. vm_compute call. split.
+  intro sc. cbn [run_ok]. split.
   { split; [|right; right; discriminate].
     intros ms m Hd Hn. inversion Hd; subst. cbn in Hn. inversion Hn; subst. left; discriminate. }
-  vm_compute call. split; [exact I|]. vm_compute call. exact I.
+  destruct (call _ 1 false (ASetup 0) _) as [[c1 k1]|]; [|exact I]. split; [exact I|].
+  destruct (call _ 1 false APlay c1) as [[c2 k2]|]; [|exact I]. split; [exact I|].
+  destruct (call _ 1 false APause c2) as [[c3 k3]|]; exact I.
 Qed.
 
 (* silence after the SETUP request: timeout, the client is dead and says so afterwards *)
